@@ -56,25 +56,25 @@ type ordFin struct {
 }
 
 type ordRow struct {
-	Mode      string      `json:"mode"`
-	Dir       string      `json:"dir"`       // c2s | s2c
-	Transport string      `json:"transport"` // polling | websocket | upgrade
-	N         int         `json:"n"`
-	Seed      uint64      `json:"seed"`
-	Progs     [][]ordPkt  `json:"progs,omitempty"`   // wire: reference encoding of every emitted packet
-	Wire      []ordWire   `json:"wire,omitempty"`    // wire: what the raw peer's OnPacket saw, in order
-	Batches   []int       `json:"batches,omitempty"` // wire: sizes of the OnPacket calls
-	Finished  []ordFin    `json:"finished,omitempty"`
-	Bursts    []int       `json:"bursts"`
-	AttCounts [][]int     `json:"attcounts"`
-	Entries   [][2]int    `json:"entries,omitempty"` // handler: (emitter, seq) at handler entry, in order
-	Complete  bool        `json:"complete"`
-	EnvErr    string      `json:"enverr,omitempty"`
-	Class     string      `json:"class,omitempty"` // harness-side classification of a handler-order failure
-	Inv       int         `json:"inversions"`
-	TrName    string      `json:"trname,omitempty"`
-	ParseErr  string      `json:"parseerr,omitempty"`
-	Ms        int64       `json:"ms"`
+	Mode      string     `json:"mode"`
+	Dir       string     `json:"dir"`       // c2s | s2c
+	Transport string     `json:"transport"` // polling | websocket | upgrade
+	N         int        `json:"n"`
+	Seed      uint64     `json:"seed"`
+	Progs     [][]ordPkt `json:"progs,omitempty"`   // wire: reference encoding of every emitted packet
+	Wire      []ordWire  `json:"wire,omitempty"`    // wire: what the raw peer's OnPacket saw, in order
+	Batches   []int      `json:"batches,omitempty"` // wire: sizes of the OnPacket calls
+	Finished  []ordFin   `json:"finished,omitempty"`
+	Bursts    []int      `json:"bursts"`
+	AttCounts [][]int    `json:"attcounts"`
+	Entries   [][2]int   `json:"entries,omitempty"` // handler: (emitter, seq) at handler entry, in order
+	Complete  bool       `json:"complete"`
+	EnvErr    string     `json:"enverr,omitempty"`
+	Class     string     `json:"class,omitempty"` // harness-side classification of a handler-order failure
+	Inv       int        `json:"inversions"`
+	TrName    string     `json:"trname,omitempty"`
+	ParseErr  string     `json:"parseerr,omitempty"`
+	Ms        int64      `json:"ms"`
 }
 
 type ordScenario struct {
@@ -84,6 +84,7 @@ type ordScenario struct {
 	atts           [][]int
 	seed           uint64
 	pingMs         int
+	paceUs         int // pause between two emits of one emitter (0 = none)
 }
 
 func ordTransports(t string) []string {
@@ -261,6 +262,9 @@ func ordEmitAll(sc *ordScenario, sock ordEmitter, payloads [][][][]byte, evName 
 					cp[i] = append([]byte(nil), atts[i]...)
 				}
 				sock.Emit(evName(len(atts)), ordArgs(e, s, cp)...)
+				if sc.paceUs > 0 {
+					time.Sleep(time.Duration(sc.paceUs) * time.Microsecond)
+				}
 			}
 		}(e)
 	}
@@ -612,6 +616,7 @@ func ordMain(args []string) error {
 	trs := fs.String("transports", "polling,websocket,upgrade", "transports")
 	par := fs.Int("par", 4, "scenarios run in parallel")
 	emitters := fs.String("emitters", "", "fixed number of emitters (default: cycle 1,2,4,8,16,3)")
+	pace := fs.Int("pace", 0, "microseconds between two emits of one emitter")
 	if err := fs.Parse(args); err != nil {
 		return err
 	}
@@ -626,7 +631,7 @@ func ordMain(args []string) error {
 	ncycle := []int{1, 2, 4, 8, 16, 3}
 	var scs []*ordScenario
 	for i := 0; i < *n; i++ {
-		sc := &ordScenario{dir: dl[i%len(dl)], transport: tl[(i/len(dl))%len(tl)], seed: r.U64(), pingMs: 25 + r.Intn(40)}
+		sc := &ordScenario{dir: dl[i%len(dl)], transport: tl[(i/len(dl))%len(tl)], seed: r.U64(), pingMs: 1000, paceUs: *pace}
 		sc.n = ncycle[(i/(len(dl)*len(tl)))%len(ncycle)]
 		if *emitters != "" {
 			fmt.Sscanf(*emitters, "%d", &sc.n)
